@@ -1081,12 +1081,27 @@ func (e *MemberExpression) Doc(ctx PrettyContext) prettier.Doc {
 		separatorDoc = memberExpressionSeparatorDoc
 	}
 
+	targetDoc := parenthesizedExpressionDoc(
+		ctx,
+		e.Expression,
+		e.precedence(),
+	)
+
+	// A decimal integer literal directly followed by a dot
+	// is lexed as the start of a fixed-point literal, e.g. `1.x`.
+	// (a negative literal is already parenthesized)
+	integer, ok := e.Expression.(*IntegerExpression)
+	if ok && !e.Optional && integer.Base == 10 &&
+		integer.precedence() == expressionPrecedenceLiteral {
+
+		targetDoc = prettier.WrapParentheses(
+			targetDoc,
+			prettier.SoftLine{},
+		)
+	}
+
 	return ctx.Wrap(e, prettier.Concat{
-		parenthesizedExpressionDoc(
-			ctx,
-			e.Expression,
-			e.precedence(),
-		),
+		targetDoc,
 		prettier.Group{
 			Doc: prettier.Indent{
 				Doc: prettier.Concat{
